@@ -408,7 +408,11 @@ pub async fn run_acb_app_summary_to_console(
 
     if summ_data.warnings.len() > 0 {
         write_errln!(err_printer, "Warnings:");
-        for (warning, secs) in summ_data.warnings {
+        // Fixed order, rather than that of the HashMap
+        let mut sorted_warnings: Vec<(String, Vec<Security>)> =
+            summ_data.warnings.into_iter().collect();
+        sorted_warnings.sort();
+        for (warning, secs) in sorted_warnings {
             write_errln!(
                 err_printer,
                 " {}. Encountered for {}",
